@@ -219,11 +219,13 @@ CLAIMED = {
             "sent in order - UD value first - with r, s the components of the DER signature answered "
             "(heartbeat_verbatim); over generated tables: state selectors, flag offsets and "
             "network names are those of firmware bc_state.h / docs/protocol.md; big-endian difficulty read-back "
-            "ignores leading zeros and round-trips below 2^288. The oracle Spec.C13.c13 recomputes the documented reply from the simulated "
+            "ignores leading zeros and round-trips below 2^288; and the last step: with no repair pending, getPubKey, "
+            "blockchainParameters, blockchainState and signerHeartbeat answer errorcode 0 with exactly the documented "
+            "field names holding exactly the device layer's values (*_reply_fields; Proofs/QueryReply.lean). The oracle Spec.C13.c13 recomputes the documented reply from the simulated "
             "genuine device's state and requires the implementation's reply to equal it field by field, and a "
             "uiHeartbeat to end in signer mode or report -905.",
-            "the last step, from the device-layer values to the JSON field names of the reply, and the device mode "
-            "after a uiHeartbeat are tied by correspondence + oracle; the simulated device stands for a genuine "
+            "the reply fields of uiHeartbeat (whose mode dance precedes them) and the device mode after it are tied "
+            "by correspondence + oracle; the simulated device stands for a genuine "
             "one; known finding F-13a"),
     "C15": ("Lean theorems about the framing between the device and the attestation file: the SGX quote envelope "
             "(fixed structs, u16-prefixed QE auth data, u16+u32-prefixed certification data, custom message) is "
